@@ -287,6 +287,37 @@ def rule_lock(prog: Program) -> List[Instance]:
             out.append(Instance("R-LOCK", f"{fi.qual}#LOCKKEY", BAD, f"lock registry read and written under different keys {sorted(keys)}: every caller gets a fresh lock", fi.where()))
         elif keys:
             out.append(Instance("R-LOCK", f"{fi.qual}#LOCKKEY", OK, f"registry key {sorted(keys)} used for both lookup and insert", fi.where()))
+    # SHAREDWRITE: the distributed Variable carries the elected upload id. On the worker path (everything
+    # reachable from the lazy-init method) it may be written only inside the lock region; a reset outside
+    # it - e.g. in the lazily called accessor - wipes an id another worker has already published and a
+    # second upload is initiated.
+    ens = [fi for fi in prog.all_functions({"cog._s3"}) if any(isinstance(n, ast.Call) and isinstance(n.func, ast.Attribute) and n.func.attr == "initiate" for n in walk_own(fi.node))]
+    for e in ens:
+        worker_path = [f for f in prog.reachable([e]) if f.mod.name == "cog._s3"]
+        n_sets = 0
+        for wf in worker_path:
+            for n in walk_own(wf.node):
+                if isinstance(n, ast.Call) and isinstance(n.func, ast.Attribute) and n.func.attr in ("set", "delete") and not n.keywords and len(n.args) <= 1:
+                    recv = n.func.value
+                    # receiver is a distributed Variable: bound from Variable(...) or from the accessor returning it
+                    is_var = False
+                    if isinstance(recv, ast.Name):
+                        for x in walk_own(wf.node):
+                            if isinstance(x, ast.Assign) and short(x.targets[0]) == recv.id and isinstance(x.value, ast.Call):
+                                cn = call_name(x.value)
+                                if cn == "Variable" or cn in ("_shared",) or any("Variable" in short(r.value, 200) for cf in [wf.cls.find_method(cn)] if wf.cls is not None and cf is not None for r in walk_own(cf.node) if isinstance(r, ast.Assign)):
+                                    is_var = True
+                    elif isinstance(recv, ast.Attribute) and "shared" in recv.attr:
+                        is_var = True
+                    if not is_var:
+                        continue
+                    n_sets += 1
+                    locked = any(_is_lock_expr(it.context_expr, wf, prog) for wn in _with_ancestors(n) for it in wn.items)
+                    out.append(Instance("R-LOCK", f"{wf.qual}#SHAREDWRITE:{short(n, 30)}", OK if locked else BAD,
+                                        f"`{short(n)}` on the worker path happens inside the lock region" if locked else
+                                        f"`{short(n)}` writes the shared variable on the worker path ({e.name} -> {wf.name}) outside the lock: an upload id already published by another worker is overwritten and a second upload gets initiated", wf.where(n)))
+        if n_sets == 0:
+            out.append(Instance("R-LOCK", f"{e.qual}#SHAREDWRITE", INFO, "no write of the shared variable on the worker path", e.where(), nontrivial=False))
     return out
 
 
@@ -1196,4 +1227,148 @@ def rule_rechunk(prog: Program) -> List[Instance]:
                                 f"`{short(n, 50)}` is skipped under `{short(guards[0][0], 60)}`, which is not `<whole chunk shape> != {short(target, 30)}`: a source whose chunking differs on an untested axis is not rechunked and tiles are built from partial chunks", fi.where(n)))
     if n_sites == 0:
         out.append(Instance("R-GUARDSEQ", "cog._tifffile#rechunk-guard", INFO, "no rechunk call found", "", nontrivial=False))
+    return out
+
+
+def _axes_perm(e: ast.AST, subject: str) -> Optional[Tuple[int, ...]]:
+    """Permutation applied to a 3-d array `subject` by a transpose-like call; None if not recognised.
+    perm[i] = source axis that ends up at position i (numpy transpose convention)."""
+    if not isinstance(e, ast.Call):
+        return None
+    nm = call_name(e)
+    args = list(e.args)
+    if isinstance(e.func, ast.Attribute) and short(e.func.value) == subject:
+        pass
+    elif args and short(args[0]) == subject:
+        args = args[1:]
+    else:
+        return None
+
+    def ints(xs) -> Optional[List[int]]:
+        out = []
+        for x in xs:
+            v = const_num(x)
+            if v is None or int(v) != v:
+                return None
+            out.append(int(v) % 3)
+        return out
+
+    if nm == "transpose":
+        if len(args) == 1 and isinstance(args[0], (ast.Tuple, ast.List)):
+            p = ints(args[0].elts)
+        else:
+            p = ints(args)
+        return tuple(p) if p is not None and sorted(p) == [0, 1, 2] else None
+    if nm == "swapaxes" and len(args) == 2:
+        p = ints(args)
+        if p is None:
+            return None
+        perm = [0, 1, 2]
+        perm[p[0]], perm[p[1]] = perm[p[1]], perm[p[0]]
+        return tuple(perm)
+    if nm == "moveaxis" and len(args) == 2:
+        p = ints(args)
+        if p is None:
+            return None
+        rest = [i for i in range(3) if i != p[0]]
+        rest.insert(p[1], p[0])
+        return tuple(rest)
+    if nm == "rollaxis" and len(args) in (1, 2):
+        p = ints(args)
+        if p is None:
+            return None
+        start = p[1] if len(p) > 1 else 0
+        rest = [i for i in range(3) if i != p[0]]
+        rest.insert(start, p[0])
+        return tuple(rest)
+    return None
+
+
+def rule_rio_layout(prog: Program) -> List[Instance]:
+    """C15: (a) band-last input (Y, X, B) is brought to the band-first layout GDAL writes, (B, Y, X): the
+    permutation must be exactly (2, 0, 1) - swapping axes 0 and 2 also puts bands first but transposes
+    every band; (b) write_cog_layers creates exactly one side-car memory file per layer: the layers are
+    written by zipping them with the files, so a shorter tuple of files silently drops layers."""
+    out: List[Instance] = []
+    w = prog.func("cog._rio:_write_cog")
+    pix = w.param_names()[0]
+    cond = Conditions(w.body)
+    n_perm = 0
+    for n in walk_own(w.node):
+        if isinstance(n, ast.Assign) and len(n.targets) == 1 and short(n.targets[0]) == pix and isinstance(n.value, ast.Call):
+            cs = conds_at(cond, n)
+            band_last = any(p and isinstance(e, ast.Compare) and isinstance(e.ops[0], ast.Eq) and isinstance(e.left, ast.Subscript) and short(e.left.value) == f"{pix}.shape"
+                            and isinstance(e.left.slice, ast.Slice) and e.left.slice.lower is None and const_num(e.left.slice.upper) == 2 for e, p in cs)
+            if not band_last:
+                continue
+            n_perm += 1
+            perm = _axes_perm(n.value, pix)
+            cid = f"{w.qual}#band-last-to-first"
+            if perm is None:
+                out.append(Instance("R-AXIS", cid, INFO, f"`{short(n.value)}` not recognised as an axis permutation", w.where(n), nontrivial=False))
+            else:
+                ok = perm == (2, 0, 1)
+                out.append(Instance("R-AXIS", cid, OK if ok else BAD,
+                                    "band-last input is permuted (Y, X, B) -> (B, Y, X)" if ok else
+                                    f"`{short(n.value)}` permutes (Y, X, B) to axes {perm}, i.e. ({', '.join('YXB'[i] for i in perm)}) instead of (B, Y, X): every band is written transposed (and non-square images fail the shape check)", w.where(n)))
+    if n_perm == 0:
+        out.append(Instance("R-AXIS", f"{w.qual}#band-last-to-first", INFO, "no re-layout of band-last input found", w.where(), nontrivial=False))
+    # (a') default pyramid: none for images under 512 pixels (the property's own number), whatever the block size
+    ovp = next((p_ for p_ in w.param_names() if "overview_levels" == p_), None)
+    for n in walk_own(w.node):
+        if not (isinstance(n, ast.Assign) and ovp and short(n.targets[0]) == ovp and isinstance(n.value, ast.List) and not n.value.elts):
+            continue
+        cs = conds_at(cond, n)
+        if not any(p and isinstance(e, ast.Compare) and isinstance(e.ops[0], ast.Is) and short(e.left) == ovp for e, p in cs):
+            continue
+        thr = [(e, p) for e, p in cs if p and isinstance(e, ast.Compare) and isinstance(e.ops[0], (ast.Lt, ast.LtE, ast.Gt, ast.GtE)) and len(e.comparators) == 1]
+        cid = f"{w.qual}#default-overviews-threshold"
+        if len(thr) != 1:
+            out.append(Instance("R-GUARDSEQ", cid, INFO, "default overview decision not a single size comparison", w.where(n), nontrivial=False))
+            continue
+        e, _p = thr[0]
+        sides = [e.left, e.comparators[0]]
+        consts = []
+        for sd in sides:
+            v = const_num(sd)
+            if v is None and isinstance(sd, ast.Name):
+                mc = w.mod.tree.body
+                for st in mc:
+                    if isinstance(st, ast.Assign) and any(isinstance(t, ast.Name) and t.id == sd.id for t in st.targets):
+                        v = const_num(st.value)
+            consts.append(v)
+        known = [v for v in consts if v is not None]
+        if known:
+            ok = known[0] == 512 and isinstance(e.ops[0], (ast.Lt, ast.Gt))
+            out.append(Instance("R-GUARDSEQ", cid, OK if ok else BAD,
+                                "no default overviews strictly below 512 pixels" if ok else f"default overviews are dropped under `{short(e)}`: the documented threshold is `< 512` pixels", w.where(n)))
+        else:
+            var = [sd for sd in sides if not any(isinstance(x, ast.Call) for x in ast.walk(sd))]
+            out.append(Instance("R-GUARDSEQ", cid, BAD, f"default overviews are dropped under `{short(e)}`, a threshold that varies with `{short(var[0]) if var else short(e)}`: the documented rule is none below 512 pixels, the requested pyramid otherwise", w.where(n)))
+    # (b)
+    f = prog.func("cog._rio:write_cog_layers")
+    org = Origins(f)
+    for wn in walk_own(f.node):
+        if not isinstance(wn, ast.With):
+            continue
+        for item in wn.items:
+            c = item.context_expr
+            if isinstance(c, ast.Call) and call_name(c) == "_memfiles_ovr" and c.args and isinstance(item.optional_vars, ast.Name):
+                mm = item.optional_vars.id
+                zipped = None
+                for z in ast.walk(wn):
+                    if isinstance(z, ast.Call) and call_name(z) == "zip" and any(isinstance(a, ast.Name) and a.id == mm for a in z.args):
+                        zipped = next((a for a in z.args if not (isinstance(a, ast.Name) and a.id == mm)), None)
+                arg = c.args[0]
+                defs = [arg]
+                if isinstance(arg, ast.Name):
+                    defs = [v for _, v in org.defs.get(arg.id, [])] or [arg]
+                cid = f"{f.qual}#one-file-per-layer"
+                if zipped is None:
+                    out.append(Instance("R-GUARDSEQ", cid, INFO, "side-car files are not consumed through zip()", f.where(c), nontrivial=False))
+                    continue
+                ok = all(isinstance(d, ast.Call) and call_name(d) == "len" and d.args and short(d.args[0]) == short(zipped) for d in defs)
+                out.append(Instance("R-GUARDSEQ", cid, OK if ok else BAD,
+                                    f"_memfiles_ovr(len({short(zipped)})): as many side-car files as layers zipped with them" if ok else
+                                    f"`{short(c)}` does not create len({short(zipped)}) files (count is `{short(defs[0])}`): zip() stops at the shorter sequence and the last layer(s) are silently not written", f.where(c)))
     return out
